@@ -35,3 +35,8 @@ sys.path.insert(0, os.path.dirname(os.path.dirname(os.path.abspath(__file__))))
 import extstages  # noqa: E402
 PROP["stages"] += extstages.pick("CX1", ["watcher"], advisory=True)
 PROP["stages"] += extstages.pick("CX1", ["watcher-stop", "bus", "watcher-mc", "watcher-ideal-mc", "bus-mc", "bus-ideal-mc", "step-code-2pub", "step-ideal-2pub", "step-code", "step-ideal", "step-live"], advisory=True, tiers=("thorough",))
+# coverage extension CX6 (lib/ext/CX6.py, spec/OpAMP.tla): the THIRD reload trigger - a remote configuration delivered over OpAMP (APPLYING ->
+# Reload with the delivered bodies -> APPLIED / FAILED, effective configuration reported upstream). Advisory: the status protocol is the agent's
+# own promise; what the reload applies is decided by the stages above.
+PROP["stages"] += extstages.pick("CX6", ["config"], advisory=True)
+PROP["stages"] += extstages.pick("CX6", ["ideal", "ideal-skip-failed"], advisory=True, tiers=("thorough",))
